@@ -47,10 +47,12 @@ pub fn items(path: &str, content: &str) -> Option<Vec<Item>> {
     let mut errs = vec![];
     let m = parse_file_as_module(&fm, Syntax::Typescript(syntax_for(path)), EsVersion::latest(), None, &mut errs).ok()?;
     let mut out = vec![];
-    let rel = |s: swc_common::Span| (s.lo.0 as usize - base, s.hi.0 as usize - base);
+    // swc removes a leading byte-order mark from the source it keeps
+    let bom = if content.starts_with('\u{feff}') { 3 } else { 0 };
+    let rel = |s: swc_common::Span| ((s.lo.0 as usize).saturating_sub(base) + bom, (s.hi.0 as usize).saturating_sub(base) + bom);
     for it in &m.body {
         let (lo, hi) = rel(it.span());
-        if hi > content.len() || lo > hi {
+        if hi > content.len() || lo > hi || !content.is_char_boundary(lo) || !content.is_char_boundary(hi) {
             return None;
         }
         let mut item = Item { lo, hi, kind: ItemKind::Other, exported: false, name: None, src: None };
